@@ -309,7 +309,7 @@ func (h *Harness) Wait(tasks ...*Task) {
 			h.Abort("client call did not return")
 		}
 		if t.panicVal != nil {
-			h.Violation("engine.panic", "panic:"+baseKey(t.Key)+":"+topRepoFrame(t.panicStack), "panic in %s: %v\n%s", t.Key, t.panicVal, t.panicStack)
+			h.Violation("engine.panic", "panic:"+topRepoFrame(t.panicStack), "panic in %s: %v\n%s", t.Key, t.panicVal, t.panicStack)
 			t.panicVal = nil
 		}
 	}
@@ -380,7 +380,7 @@ func (h *Harness) collectPanics() {
 	h.S.mu.Unlock()
 	for _, t := range ts {
 		if t.panicVal != nil {
-			h.Violation("engine.panic", "panic:"+baseKey(t.Key)+":"+topRepoFrame(t.panicStack), "panic in %s: %v\n%s", t.Key, t.panicVal, t.panicStack)
+			h.Violation("engine.panic", "panic:"+topRepoFrame(t.panicStack), "panic in %s: %v\n%s", t.Key, t.panicVal, t.panicStack)
 			t.panicVal = nil
 		}
 	}
